@@ -85,6 +85,11 @@ CLAIMS = {
    text="For every subset of include edges over 3 files (and sampled / all subsets over 4 files) in 3 directories, with decorated include lines, fenced and brace look-alikes, repeated includes, missing targets, CRLF, missing trailing newline and a symlinked alias, loading the root must give exactly the reference expansion, report reachable cycles as circular includes, never report acyclic graphs as circular, and name missing files.",
    note="Trees are written under /verif/work/ and removed after each case; when a cycle and a missing file are both reachable either error is accepted.",
    ref="6/C20"),
+ "C16": dict(
+   technique="runtime monitoring: reference evaluator of arm lists (first arm in source order whose pattern matches and whose guard holds, with bindings) compared with interpreted calls over every permutation of arm families and every argument of a small domain; recurrences checked against closed forms; subprocess isolation for stack exhaustion",
+   text="Functions (one and two parameters) and match expressions built from literal, variable, wildcard, tuple, array and enum-payload patterns, with guards, are evaluated for every permutation of their arms on every argument of a small domain; arm bodies are tagged so that the selected arm and its binding are visible in the result. Factorial, fibonacci, power, gcd and a tail-recursive countdown (depth 2*10^4 quick, 2*10^5 thorough) are compared with the recurrence; scalar functions are applied to matrices; wrong arity, no matching arm and non-exhaustive matches must be errors.",
+   note="Guards are only generated where the grammar has them (match expressions); a worker abort (stack overflow) is reported as a violation.",
+   ref="6/C16"),
 }
 NOT_YET = "not claimed yet: the monitor for this property is still being built in this session (see DESIGN.md section 6 for the planned check)"
 
